@@ -84,6 +84,9 @@ type opTrack struct {
 	submitted   bool
 	done        bool
 
+	waiting      bool // seen sitting in the waiting queue (status created, listed by GetWaitingOperators)
+	epochChanged bool // pd learnt a new epoch of the region while the operator was waiting
+
 	ownApplied uint64 // conf_ver units the store has applied on behalf of this operator's commands
 	ownAtView  uint64 // ownApplied as reflected in pd's current view of the region
 	foreign    bool   // the region changed by something else than this operator's commands since it was built
@@ -258,10 +261,17 @@ func (w *world) putView(g *reg) {
 			}
 		}
 	}
+	epochMoved := g.view != nil && (g.view.GetRegionEpoch().GetConfVer() != info.GetRegionEpoch().GetConfVer() ||
+		g.view.GetRegionEpoch().GetVersion() != info.GetRegionEpoch().GetVersion())
 	w.mc.PutRegion(info)
 	g.dirty = false
 	for _, t := range g.ops {
 		t.ownAtView = t.ownApplied
+		if epochMoved && t.waiting && !t.epochChanged && t.op.Status() == operator.CREATED {
+			t.epochChanged = true
+			w.r.Count("epoch_changes_while_waiting", 1)
+			g.logf("#%d (op%d is waiting while pd learns epoch %s)", w.evNo, t.id, epochStr(info.GetRegionEpoch()))
+		}
 	}
 	// a put with a wider range evicts the regions it swallowed (merge)
 	for _, id := range w.rids {
